@@ -134,13 +134,14 @@ class Guest:
         self.kinds.append((kind, payload))
         return len(self.kinds) - 1
 
-    def instantiate(self, args=(), envs=(), preopens=()):
+    def instantiate(self, args=(), envs=(), preopens=(), native=()):
+        """native: indices of pre-opens that the embedder registers with a native directory descriptor of its own (instead of -1)"""
         self.emit('I 0', 'inst')
         self.emit('A ' + ' '.join(hexs(a) for a in args) if args else 'A', 'args')
         self.emit('E ' + ' '.join(hexs(a) for a in envs) if envs else 'E', 'env')
         self.emit('W', 'init')
-        for p in preopens:
-            self.emit('D ' + hexs(p), 'preopen', p)
+        for i, p in enumerate(preopens):
+            self.emit('D ' + hexs(p) + (' native' if i in native else ''), 'preopen', p)
 
     def poke(self, addr, data):
         self.mem[addr:addr + len(data)] = data
